@@ -58,3 +58,7 @@ def run(rep):
         if rep.tier != "quick":
             runs.append(["consume", lib, 0, "handles=4"])
     rt_common.impl_side(rep, PID, runs, lambda a, d: probe.oracle_consume(d))
+
+
+def replay(rep, path):
+    return rt_common.replay_generic(rep, path)
